@@ -21,6 +21,75 @@ def lastTypeNames (spec : DeclSpec) : P (List Val) := do
 
 def strOf (v : Val) : String := match v with | .str s => s | _ => ""
 
+/-- first-declarator fix-ups of `_build_declarations` (`c_parser.py:329-370`) -/
+def bdFirstFix (spec : DeclSpec) (decls : List DeclInfo) (d0 : DeclInfo) : P (DeclSpec × List DeclInfo) := do
+  if !d0.bitsize.isNone then pure (spec, decls) else
+  if d0.decl.isNone then
+    let bad : P Bool := do
+      if spec.type.length < 2 then pure true else
+      if !(spec.type.getLast!).isCls .IdentifierType then pure true else
+      let names ← lastTypeNames spec
+      if names.length != 1 then pure true else
+      pure (!(← isTypeInScope (strOf names.head!)))
+    if ← bad then
+      match spec.type with
+      | [] => parseError "Invalid declaration" (← lexFileLoc)
+      | t :: _ =>
+        match t.coord? with
+        | some co => parseError "Invalid declaration" (locOfCoord co)
+        | none => parseError "Invalid declaration" (.text "?")   -- not a node: no `coord`
+    else
+      let names ← lastTypeNames spec
+      let lastT := spec.type.getLast!
+      let co ← valCoord lastT "spec['type'][-1].coord"
+      let td := mk .TypeDecl co [names.head!, .none, .none, .list spec.alignment]
+      pure ({ spec with type := spec.type.dropLast }, { d0 with decl := td } :: decls.tail)
+  else if !isInstance d0.decl [.Enum, .Struct, .Union, .IdentifierType] then
+    let fuel := d0.decl.size + 1
+    let tail ← attrOrCrash (innerTypeDecl fuel d0.decl) "decls_0_tail.type"
+    let dn ← attrOrCrash (tail.getAttr "declname") "declname"
+    if dn.isNone then
+      let names ← lastTypeNames spec
+      let nm ← match names with
+        | n :: _ => pure n
+        | [] => crash .index "names[0]"
+      let d' ← attrOrCrash (mapInnerTypeDecl fuel d0.decl fun td => td.setAttr "declname" nm) "declname="
+      pure ({ spec with type := spec.type.dropLast }, { d0 with decl := d' } :: decls.tail)
+    else pure (spec, decls)
+  else pure (spec, decls)
+
+/-- one iteration of the `for decl in decls` loop: returns the finished declaration and the
+(possibly extended) shared `spec["qual"]` list -/
+def bdOne (spec : DeclSpec) (isTypedef typedefNamespace : Bool) (d : DeclInfo) (quals : List Val) :
+    P (Val × List Val) := do
+  if d.decl.isNone then crash .assertion "decl['decl'] is not None" else
+  let dco ← valCoord d.decl "decl['decl'].coord"
+  let declaration :=
+    if isTypedef then
+      mk .Typedef dco [.none, .list quals, .list spec.storage, d.decl]
+    else
+      mk .Decl dco [.none, .list quals, .list spec.alignment, .list spec.storage,
+        .list spec.function, d.decl, d.init, d.bitsize]
+  let fixed ← if isInstance d.decl [.Enum, .Struct, .Union, .IdentifierType] then pure declaration
+    else fixDeclNameType declaration spec.type
+  if typedefNamespace then
+    let nm ← attrOrCrash (fixed.getAttr "name") "fixed_decl.name"
+    let fco ← valCoord fixed "fixed_decl.coord"
+    match nm with
+    | .str n => if isTypedef then addTypedefName n fco else addIdentifier n fco
+    | _ => pure ()
+  let fixed ← fixAtomicSpecifiers fixed
+  let q' ← attrOrCrash (fixed.getAttr "quals") "quals"
+  let quals' := match q' with | .list l => l | _ => quals
+  pure (fixed, quals')
+
+def bdLoop (spec : DeclSpec) (isTypedef typedefNamespace : Bool) :
+    List DeclInfo → List Val → List Val → P (List Val × List Val)
+  | [], quals, acc => pure (quals, acc)
+  | d :: rest, quals, acc => do
+    let r ← bdOne spec isTypedef typedefNamespace d quals
+    bdLoop spec isTypedef typedefNamespace rest r.2 (acc ++ [r.1])
+
 /-- `_build_declarations` -/
 def buildDeclarations (spec : DeclSpec) (decls : List DeclInfo) (typedefNamespace : Bool) :
     P (List Val) := do
@@ -28,69 +97,11 @@ def buildDeclarations (spec : DeclSpec) (decls : List DeclInfo) (typedefNamespac
   let d0 ← match decls with
     | d :: _ => pure d
     | [] => crash .index "decls[0]"
-  -- the first-declarator fix-ups
-  let (spec, decls) ← (do
-    if !d0.bitsize.isNone then pure (spec, decls) else
-    if d0.decl.isNone then
-      let bad : P Bool := do
-        if spec.type.length < 2 then pure true else
-        if !(spec.type.getLast!).isCls .IdentifierType then pure true else
-        let names ← lastTypeNames spec
-        if names.length != 1 then pure true else
-        pure (!(← isTypeInScope (strOf names.head!)))
-      if ← bad then
-        match spec.type with
-        | [] => parseError "Invalid declaration" (← lexFileLoc)
-        | t :: _ =>
-          match t.coord? with
-          | some co => parseError "Invalid declaration" (locOfCoord co)
-          | none => parseError "Invalid declaration" (.text "?")   -- not a node: no `coord`
-      else
-        let names ← lastTypeNames spec
-        let lastT := spec.type.getLast!
-        let co ← valCoord lastT "spec['type'][-1].coord"
-        let td := mk .TypeDecl co [names.head!, .none, .none, .list spec.alignment]
-        pure ({ spec with type := spec.type.dropLast }, { d0 with decl := td } :: decls.tail)
-    else if !isInstance d0.decl [.Enum, .Struct, .Union, .IdentifierType] then
-      let fuel := d0.decl.size + 1
-      let tail ← attrOrCrash (innerTypeDecl fuel d0.decl) "decls_0_tail.type"
-      let dn ← attrOrCrash (tail.getAttr "declname") "declname"
-      if dn.isNone then
-        let names ← lastTypeNames spec
-        let nm ← match names with
-          | n :: _ => pure n
-          | [] => crash .index "names[0]"
-        let d' ← attrOrCrash (mapInnerTypeDecl fuel d0.decl fun td => td.setAttr "declname" nm) "declname="
-        pure ({ spec with type := spec.type.dropLast }, { d0 with decl := d' } :: decls.tail)
-      else pure (spec, decls)
-    else pure (spec, decls))
+  let sd ← bdFirstFix spec decls d0
   -- the loop; `quals` is the shared `spec["qual"]` list object
-  let rec loop : List DeclInfo → List Val → List Val → P (List Val × List Val)
-    | [], quals, acc => pure (quals, acc)
-    | d :: rest, quals, acc => do
-      if d.decl.isNone then crash .assertion "decl['decl'] is not None" else
-      let dco ← valCoord d.decl "decl['decl'].coord"
-      let declaration :=
-        if isTypedef then
-          mk .Typedef dco [.none, .list quals, .list spec.storage, d.decl]
-        else
-          mk .Decl dco [.none, .list quals, .list spec.alignment, .list spec.storage,
-            .list spec.function, d.decl, d.init, d.bitsize]
-      let fixed ← if isInstance d.decl [.Enum, .Struct, .Union, .IdentifierType] then pure declaration
-        else fixDeclNameType declaration spec.type
-      if typedefNamespace then
-        let nm ← attrOrCrash (fixed.getAttr "name") "fixed_decl.name"
-        let fco ← valCoord fixed "fixed_decl.coord"
-        match nm with
-        | .str n => if isTypedef then addTypedefName n fco else addIdentifier n fco
-        | _ => pure ()
-      let fixed ← fixAtomicSpecifiers fixed
-      let q' ← attrOrCrash (fixed.getAttr "quals") "quals"
-      let quals' := match q' with | .list l => l | _ => quals
-      loop rest quals' (acc ++ [fixed])
-  let (finalQuals, out) ← loop decls spec.qual []
+  let r ← bdLoop sd.1 isTypedef typedefNamespace sd.2 sd.1.qual []
   -- all declarations alias the one `spec["qual"]` list: later appends are visible in earlier ones
-  out.mapM fun d => attrOrCrash (d.setAttr "quals" (.list finalQuals)) "quals"
+  mapP (fun d => attrOrCrash (d.setAttr "quals" (.list r.1)) "quals") r.2
 
 /-- `_build_function_definition` -/
 def buildFunctionDefinition (spec : DeclSpec) (decl : Val) (paramDecls : Val) (body : Val) : P Val := do
